@@ -40,11 +40,23 @@ class AbsBytes(S.Sym):
 
 
 class AbsSource:
-    """abstract byte source: the only operations allowed on it are iter() and next()"""
+    """abstract byte source: the only operations allowed on it are iter() and next(); anything else is recorded"""
 
     def __init__(self, ctx):
         self.ctx = ctx
         self.ops = []
+
+    def __getitem__(self, k):
+        self.ops.append("getitem")
+        raise TypeError("'source' object is not subscriptable")
+
+    def __len__(self):
+        self.ops.append("len")
+        raise TypeError("object of type 'source' has no len()")
+
+    def __bytes__(self):
+        self.ops.append("bytes")
+        raise TypeError("cannot convert 'source' object to bytes")
 
 
 class Ghost:
@@ -69,8 +81,10 @@ def mk_events(ctx, root_path):
     from contracts.decoder import TypedStub
 
     cc = TypedStub.make(TPM_CC, S.SInt(ctx.fresh_int("ccv", 0, 2**32 - 1)))
+    cc0 = TypedStub.make(TPM_CC, S.SInt(ctx.fresh_int("ccv0", 0, 2**32 - 1)))
     return {
         "cc": MarshalEvent(Path(root_path / PathNode("commandCode")), TPM_CC, cc),
+        "cc0": MarshalEvent(Path(root_path / PathNode("commandCode")), TPM_CC, cc0),  # a commandCode event of an earlier message
         "root": MarshalEvent(Path.from_string("."), Command, ...),
         "field": MarshalEvent(Path(root_path / PathNode("f")), UINT8, TypedStub.make(UINT8, S.SInt(ctx.fresh_int("fv", 0, 255)))),
         "struct": MarshalEvent(Path(root_path / PathNode("s")), Command, ...),
@@ -338,9 +352,9 @@ def _havoc_command_code(ctx, frame, G, EV):
     if ctx.fork([z3.BoolVal(True), z3.BoolVal(True)], "havoc-cc") == 0:
         frame.locals["command_code"] = None
     else:
-        frame.locals["command_code"] = EV["cc"].value
-        G.yields.append(EV["cc"])
-        G.answers.append(("emit", EV["cc"]))
+        frame.locals["command_code"] = EV["cc0"].value
+        G.yields.append(EV["cc0"])
+        G.answers.append(("emit", EV["cc0"]))
 
 
 class OuterLoop:
@@ -439,7 +453,7 @@ class InnerLoop:
             if not first:
                 # second time at the head with a pending event: that state is covered by the havoc'd case; check it is an instance
                 ev = loc.get("event")
-                ok = any(ev is e for e in self.EV.values())
+                ok = any(ev is e for k, e in self.EV.items() if k != "cc0")
                 ctx.record("INV/inner-preserved", ok and G.last == "emit", "loop", self.site)
                 if loc.get("buffer_depleted") is False:
                     ctx.oblige("INV/inner-preserved/pulled-is-sent-plus-one", G.pulled == G.sent + 1, "loop", self.site)
